@@ -28,7 +28,7 @@ import z3
 
 from . import ctx as _ctx
 from .ctx import BoundExceeded, SymxSignal, Unsupported
-from .values import (SymBool, SymEnum, SymInt, SymStr, int_to_str, is_sym, to_z3_bool, to_z3_int,
+from .values import (SymBool, SymChars, SymEnum, SymInt, SymStr, int_to_str, is_sym, to_z3_bool, to_z3_int,
                      wrap_bool, wrap_int)
 
 ALLOWED_PREFIXES = ["hugr.", "vrf.harness", "vrf.oracle"]
@@ -276,6 +276,12 @@ class Interp:
             return self.instantiate(f, args, kwargs)
         if isinstance(f, functools.partial):
             return self.call(f.func, (*f.args, *args), {**f.keywords, **kwargs})
+        if isinstance(f, types.BuiltinMethodType) and isinstance(getattr(f, "__self__", None), str):
+            if f.__name__ == "join" and len(args) == 1:
+                parts = list(self._iter(args[0]))
+                if any(isinstance(p, SymStr | SymChars) for p in parts):
+                    return self._join(f.__self__, parts)
+                return f.__self__.join(parts)
         # callable instance with interpretable __call__
         if not isinstance(f, types.BuiltinFunctionType | types.BuiltinMethodType | types.MethodWrapperType
                           | types.WrapperDescriptorType | types.MethodDescriptorType):
@@ -438,6 +444,8 @@ class Interp:
             return _ctx.cur().decide(v.z != 0)
         if isinstance(v, SymStr):
             return _ctx.cur().decide(z3.Length(v.z) > 0)
+        if isinstance(v, SymChars):
+            return len(v.cells) > 0
         if isinstance(v, bool):
             return v
         if v is None:
@@ -491,7 +499,7 @@ class Interp:
                 return any(q in (int, object) for q in flat)
             if isinstance(x, SymBool):
                 return any(q in (bool, int, object) for q in flat)
-            if isinstance(x, SymStr):
+            if isinstance(x, SymStr | SymChars):
                 return any(q in (str, object) for q in flat)
         return isinstance(x, t)
 
@@ -502,7 +510,7 @@ class Interp:
             return int
         if isinstance(x, SymBool):
             return bool
-        if isinstance(x, SymStr):
+        if isinstance(x, SymStr | SymChars):
             return str
         return type(x)
 
@@ -513,7 +521,7 @@ class Interp:
             return int_to_str(x)
         if isinstance(x, SymBool):
             return "True" if self.truth(x) else "False"
-        if isinstance(x, SymStr):
+        if isinstance(x, SymStr | SymChars):
             return x
         if isinstance(x, str):
             return x
@@ -984,6 +992,8 @@ class Interp:
             raise Unsupported(f"assign target {type(t).__name__}")
 
     def _iter(self, v):
+        if isinstance(v, SymChars):
+            return iter(v)
         if is_sym(v):
             raise TypeError(f"'{self.type_(v).__name__}' object is not iterable")
         t = type(v)
@@ -995,8 +1005,19 @@ class Interp:
     # ------------------------------------------------------------------
     # subscripts
     # ------------------------------------------------------------------
+    def _sym_index(self, obj, idx):
+        """list/tuple index by a symbolic int: fork in-range / out-of-range first, so that an
+        unbounded index does not have to be enumerated."""
+        n = len(obj)
+        c = _ctx.cur()
+        if c.decide(z3.Or(idx.z >= n, idx.z < -n)):
+            raise IndexError(f"{type(obj).__name__} index out of range")
+        return idx.__index__()
+
     def subscript(self, obj, idx):
         t = type(obj)
+        if isinstance(idx, SymInt) and t in (list, tuple):
+            return obj[self._sym_index(obj, idx)]
         gm = _mro_lookup(t, "__getitem__")
         if isinstance(gm, types.FunctionType) and self.interpretable(gm):
             return self.call(gm, (obj, idx))
@@ -1004,6 +1025,9 @@ class Interp:
 
     def setitem(self, obj, idx, v):
         t = type(obj)
+        if isinstance(idx, SymInt) and t is list:
+            obj[self._sym_index(obj, idx)] = v
+            return
         sm = _mro_lookup(t, "__setitem__")
         if isinstance(sm, types.FunctionType) and self.interpretable(sm):
             self.call(sm, (obj, idx, v))
@@ -1155,6 +1179,17 @@ class Interp:
         if isinstance(item, SymStr) and isinstance(container, str):
             from .values import to_z3_str
             return wrap_bool(z3.Contains(z3.StringVal(container), item.z))
+        if is_sym(item) and isinstance(container, set | frozenset) and all(isinstance(x, int | str | bool) for x in container):
+            zs = []
+            for x in container:
+                r = operator.eq(item, x)
+                zb = to_z3_bool(r)
+                if zb is None:
+                    zs = None
+                    break
+                zs.append(zb)
+            if zs is not None:
+                return wrap_bool(z3.Or(*zs)) if zs else False
         if is_sym(item) and isinstance(container, list | tuple) :
             # disjunction instead of forking per element (when all comparisons are scalar)
             zs = []
@@ -1211,7 +1246,7 @@ class Interp:
         elif e.conversion == ord("a"):
             v = ascii(v)
         if spec == "":
-            if isinstance(v, str | SymStr):
+            if isinstance(v, str | SymStr | SymChars):
                 return v
             fm = _mro_lookup(type(v), "__format__")
             if fm is object.__format__ or is_sym(v):
